@@ -229,6 +229,17 @@ func propC11(c *Ctx) {
 				b, ok := cl.Call.Value.(*ssa.Builtin)
 				return ok && b.Name() == "len"
 			}, 4)
+			// the map written is not the map read: offsets only move up while the
+			// stream is visited in increasing order, so an entry moved within one
+			// map overwrites the not-yet-read entry of a later instruction
+			inPlace := false
+			if ex, ok := upd.Value.(*ssa.Extract); ok {
+				if lk, ok := ex.Tuple.(*ssa.Lookup); ok {
+					inPlace = lk.X == upd.Map || exprEq(lk.X, upd.Map)
+				}
+			}
+			c.Check(rs, fnName(convSSA)+" | re-keyed map is a new map", l.Pos(upd.Pos()), !inPlace, "the entries are written into a map other than the one they are read from",
+				"the source map is re-keyed in place: an entry moved to its new (higher) offset overwrites the entry of a later instruction that has not been read yet, so positions after the first widened instruction are smeared forward (errors in converted code report wrong lines)")
 			c.Check(rs, fnName(convSSA)+" | newSrcMap[...] = pos", l.Pos(upd.Pos()), startsAtZero && keyFromNew, "old offsets are visited from 0, new keys are lengths of the new stream",
 				fmt.Sprintf("source map entries are lost or mis-keyed (loop starts at offset 0: %v, key derived from the new stream's length: %v): errors raised in converted code report no or wrong positions", startsAtZero, keyFromNew))
 		}
